@@ -35,6 +35,9 @@ from comb_spec_searcher.exception import InvalidOperationError
 from comb_spec_searcher.strategies.strategy import StrategyFactory, VerificationStrategy
 
 
+LAZY_MIN = 0  # see PW.minimum_size_of_object; set per job by the rule-level checks
+
+
 class W(str, CombinatorialObject):
     def size(self):
         return str.__len__(self)
@@ -63,6 +66,9 @@ class PW(CombinatorialClass):
         return self.just_prefix
 
     def minimum_size_of_object(self):
+        # LAZY_MIN = T > 0: classes with a prefix of length <= T report only "at least 1" (allowed by the documented contract)
+        if LAZY_MIN and len(self.prefix) <= LAZY_MIN and not self.just_prefix:  # an atom's minimum is used as its size
+            return min(1, len(self.prefix))
         return len(self.prefix)
 
     def get_minimum_value(self, parameter):
@@ -266,6 +272,9 @@ class Peel(_ModeMixin, CartesianProductStrategy):
 
     def extra_parameters(self, c, children=None):
         return tuple(m for _, m in self._kids(c))
+
+    def is_reversible(self, comb_class):
+        return not LAZY_MIN  # the quotient needs the exact minimum sizes of the siblings
 
     def formal_step(self):
         return f"peel {self.mode}".strip()
